@@ -629,14 +629,20 @@ def results_pickle_probe(out, bad, stats):
             bad("pickled_cell_state_differs")
             return
         # division / death flags are part of a cell's state too (a pending division decides what the next simulation does)
-        for dv, dd in ((-1, -1), (0, -1), (2, -1), (-1, 1)):
-            cf = LineageVolumeCellState(v0=1.25, t0=0.5, state=row.copy(), volume=2.0, time=3.5, divided=dv, dead=dd)
-            for restored in (pickle.loads(pickle.dumps(cf, protocol=2)), pickle.loads(pickle.dumps(cf, protocol=5)), copy.deepcopy(cf)):
+        # birth / current values including the boundary ones (a cell observed at time 0 that was born earlier, volume 1, ...)
+        for k_, (dv, dd) in enumerate(((-1, -1), (0, -1), (2, -1), (-1, 1))):
+            v0_, t0_, vol_, t_ = ((1.25, 0.5, 2.0, 3.5), (1.25, -2.5, 2.0, 0.0), (1.0, 0.0, 1.0, 0.0), (2.0, 3.0, 2.0, 3.0))[k_]
+            cf = LineageVolumeCellState(v0=v0_, t0=t0_, state=row.copy(), volume=vol_, time=t_, divided=dv, dead=dd)
+            for restored in (pickle.loads(pickle.dumps(cf, protocol=2)), pickle.loads(pickle.dumps(cf, protocol=5)), copy.deepcopy(cf),
+                             pickle.loads(pickle.dumps(pickle.loads(pickle.dumps(cf))))):
                 ga, gb = cf.__getstate__(), restored.__getstate__()
                 same = len(ga) == len(gb) and all((np.array_equal(np.asarray(x), np.asarray(y))) for x, y in zip(ga, gb))
-                if not same:
+                getters = ("py_get_time", "py_get_volume", "py_get_initial_time", "py_get_initial_volume")
+                va, vb = [getattr(cf, g)() for g in getters], [getattr(restored, g)() for g in getters]
+                if not same or va != vb or va != [t_, vol_, t0_, v0_]:
                     bad("pickled_cell_state_differs", original=[np.asarray(x).tolist() for x in ga],
-                        restored=[np.asarray(x).tolist() for x in gb])
+                        restored=[np.asarray(x).tolist() for x in gb], getters_original=va, getters_restored=vb,
+                        constructed_with=[t_, vol_, t0_, v0_])
                     return
         cs3 = copy.deepcopy(cs)
         cs3.py_get_state()[0] += 1
